@@ -167,10 +167,13 @@ type callCmd struct {
 	id   string
 	w    *world
 	done chan struct{}
+	// issued is set right before the request goes out (the caller is a process of its own: it may be scheduled late)
+	issued *int32
 }
 
 func (c *caller) HandleMessage(from gen.PID, message any) error {
 	if m, ok := message.(callCmd); ok {
+		atomic.StoreInt32(m.issued, 1)
 		v, err := c.CallWithTimeout(m.pool, payload{ID: m.id}, 3)
 		s := m.id + "="
 		if err != nil {
@@ -241,6 +244,7 @@ func (r *Runner) Run(h *History) ([]Line, error) {
 		}
 		return out
 	}
+	var issuedFlags []*int32
 	quiesce := func() {
 		stable := 0
 		lastSig := ""
@@ -248,6 +252,11 @@ func (r *Runner) Run(h *History) ([]Line, error) {
 		for stable < 4 && time.Now().Before(deadline) {
 			ok := true
 			sig := ""
+			for _, f := range issuedFlags {
+				if atomic.LoadInt32(f) == 0 {
+					ok = false // a caller has not sent its request yet
+				}
+			}
 			if poolUp() {
 				if info, err := r.Node.ProcessInfo(ppid); err == nil {
 					q := info.MailboxQueues
@@ -326,7 +335,9 @@ func (r *Runner) Run(h *History) ([]Line, error) {
 			ln.ID = fmt.Sprintf("m%d", seq)
 			done := make(chan struct{})
 			pendingCalls = append(pendingCalls, done)
-			r.Node.Send(newCaller(), callCmd{pool: ppid, id: ln.ID, w: w, done: done})
+			flag := new(int32)
+			issuedFlags = append(issuedFlags, flag)
+			r.Node.Send(newCaller(), callCmd{pool: ppid, id: ln.ID, w: w, done: done, issued: flag})
 			ln.Res = "ok"
 		case "hold":
 			if target != nil {
